@@ -10,6 +10,12 @@ TRUST = ("Trusted base: the API-server / kubelet / cache models of internal/worl
 
 # id -> (cmd, category, technique, text, design_ref, note)
 CHECKS = {
+ "C10": ("c10", "model_checking", "exhaustive snapshot enumeration over ownership grids with call-log monitors and a differential oracle",
+         "Pods and revisions with every combination of owner, label match, name shape and terminating flag, a second set with the same selector, and a cached set that is stale w.r.t. the API (deleting, other UID, absent) are each reconciled once by the real controller; every write is judged for ownership, adoption needs a prior uncached confirmation, and the writes must equal those of the same snapshot without foreign-owned objects.", "4/C10", TRUST),
+ "C11": ("c11", "model_checking", "exhaustive snapshot enumeration with the pause/deletion flag raised",
+         "The ownership grid and the C03 population grids are re-run with the set deleting (cache+API, API only) or paused: no pod/claim write, no adoption or release, no write on revisions the set does not control; nothing at all while paused. (The resume clause is decided by the search driver once built.)", "4/C11", TRUST),
+ "C13": ("c13", "model_checking", "exhaustive snapshot enumeration over revision populations",
+         "Full product of three revision slots (own / orphan / foreign x selector / marker / both labels) x limits {0,1,10} x pod-label pinning x equal revision numbers: deletes only own unused revisions, each once, only beyond the limit, oldest first; at most limit unused remain after success.", "4/C13", TRUST),
  "C01": ("c01", "model_checking", "bounded-exhaustive input enumeration against a reference model, helpers and real controller",
          "Every (replicas, delete-slots annotation) pair of a bounded input space is fed to every client helper and to the real controller on an empty cluster (Parallel: one reconcile; OrderedReady: reconcile/kubelet loop to quiescence); results must equal the reference model 'first r non-negative integers not listed'.", "4/C01", TRUST),
  "C15": ("c15", "model_checking", "bounded-exhaustive enumeration of CRD-admitted objects, each driven through a journey of real reconciles",
